@@ -6,7 +6,7 @@
 From Coq Require Import String Ascii.
 From RV Require Import Model.Base Model.GeomPrims Model.ViewBoxSpec Gen.SvgTables Gen.StructTables Gen.LeafViewBox.
 From RV Require Import Model.Structure Proofs.Structure.
-From RV Require Import Model.ShapePath Gen.ShapePaths Proofs.ShapePath Gen.UseClip.
+From RV Require Import Model.ShapePath Gen.ShapePaths Proofs.ShapePath Gen.UseClip Gen.GzipMagic.
 Local Open Scope Q_scope.
 
 (* associativity, identity, and pre_concat = matrix product (right factor applied first) *)
@@ -261,6 +261,10 @@ Theorem C10_lang_prefix : forall lang p,
   (exists rest, lang = (p ++ String "-"%char rest)%string) /\ prefix_before_dash p = None.
 Proof. exact prefix_before_dash_spec. Qed.
 Print Assumptions C10_lang_prefix.
+(* gzip input is recognised by ID1 ID2 of RFC 1952 alone: every member (any CM / FLG / MTIME / XFL / OS) takes the gzip path *)
+Theorem C10_gzip_magic : GZIP_MAGIC = [31; 139]%N.
+Proof. reflexivity. Qed.
+Print Assumptions C10_gzip_magic.
 Theorem C10_viewport_clip_decision : forall (is_svg : bool) (ov : option string) us0 us1 hw hh x y w h,
   let off := match ov with Some o => existsb (String.eqb o) ["visible"; "auto"]%string | None => false end in
   let size := if is_svg then override_size us0 us1 {| sw := w; sh := h |} else {| sw := w; sh := h |} in
